@@ -452,3 +452,23 @@ Example c11_code_nonvacuous :
 Proof. vm_compute. repeat split; reflexivity. Qed.
 Print Assumptions c11_code_try_read_100.
 Print Assumptions c11_code_nonvacuous.
+
+(** The other half of the handshake: a 100 that arrives after the caller stopped waiting is skipped by
+    [Flow<RecvResponse>::try_response] exactly while one is still awaited; that function, too, is translated from the source on
+    every run and proved equal to the model (also exported by C10). *)
+Theorem c11_code_late_100 : forall f input c c' got,
+  as_recv_response f = Ok c ->
+  call_try_response c input = Ok (c', got) ->
+  match recv_try_response f input with
+  | Ok (f', used, orsp) =>
+      gen_try_response (i_reasons f) (i_await_100 f) (i_status f) (i_location f) (Ok got)
+      = Ok (i_reasons f', i_await_100 f', i_status f', i_location f', (used, orsp))
+  | Err e => gen_try_response (i_reasons f) (i_await_100 f) (i_status f) (i_location f) (Ok got) = Err e
+  | Panic _ => exists s, gen_try_response (i_reasons f) (i_await_100 f) (i_status f) (i_location f) (Ok got) = Panic s
+  end.
+Proof. exact gen_try_response_ok. Qed.
+Theorem c11_code_new_flags : forall h10 cc nb ex,
+  gen_flow_new h10 cc nb ex (Ok tt) = Ok ((if h10 then [Http10] else []) ++ (if cc then [ClientConnectionClose] else []), nb, ex).
+Proof. exact gen_flow_new_table. Qed.
+Print Assumptions c11_code_late_100.
+Print Assumptions c11_code_new_flags.
